@@ -156,6 +156,7 @@ pub mod probe_token {
         Symbol,
         Decimals,
         Bal(Address),
+        Blocked(Address),
     }
 
     #[contract]
@@ -188,9 +189,16 @@ pub mod probe_token {
                 .unwrap_or(0);
             env.storage().persistent().set(&Key::Bal(to), &(b + amount));
         }
+        /// the token refuses to credit a blocked address (stands for a frozen trustline,
+        /// a deny list, any receiver-dependent failure of a token)
+        pub fn set_blocked(env: Env, who: Address, blocked: bool) {
+            env.storage().persistent().set(&Key::Blocked(who), &blocked);
+        }
         pub fn transfer(env: Env, from: Address, to: Address, amount: i128) {
             from.require_auth();
             assert!(amount >= 0);
+            let blocked: bool = env.storage().persistent().get(&Key::Blocked(to.clone())).unwrap_or(false);
+            assert!(!blocked, "receiver is blocked by the token");
             let fb: i128 = env
                 .storage()
                 .persistent()
